@@ -559,13 +559,6 @@ impl ContinuityStreamCache {
         self.try_read_last_seq_for_sidecar_path(continuity_id, &self.path_for(continuity_id))
     }
 
-    fn try_read_last_seq_messages_runs_v1(&self, continuity_id: &str) -> io::Result<Option<u64>> {
-        self.try_read_last_seq_for_sidecar_path(
-            continuity_id,
-            &self.messages_runs_path_for_v1(continuity_id),
-        )
-    }
-
     fn try_read_last_message_appended_messages_runs_v1(
         &self,
         continuity_id: &str,
@@ -1029,16 +1022,11 @@ impl ContinuityStreamCache {
 
         // Determine the cut point `from_seq` as: (seq before the next message) or head_seq.
         // Use the full sidecar's head seq when available so `from_seq` matches the truth stream.
-        let head_seq = self
-            .try_read_last_seq(continuity_id)
-            .ok()
-            .flatten()
-            .or_else(|| {
-                self.try_read_last_seq_messages_runs_v1(continuity_id)
-                    .ok()
-                    .flatten()
-            })
-            .unwrap_or(anchor_seq);
+        // The mr sidecar omits non-message frames, so its last seq is not the head: without the
+        // full sidecar this path cannot name the cut point.
+        let Some(head_seq) = self.try_read_last_seq(continuity_id).ok().flatten() else {
+            return Ok(None);
+        };
 
         let mut next_message_seq: Option<u64> = None;
         let mut boundary_pos: u64 = sidecar_file.metadata()?.len();
